@@ -146,3 +146,18 @@ __CPROVER_ensures (1);
     }
 }''' % mpz_obj('Z'), timeout=600,
     selftest=[('__gmpz_cmp_d', r'return \(darray\[0\] != 0 \? -ret : 0\);', 'return 0;'), ('__gmpz_cmp_d', r'if \(d < 1\.0\)', 'if (d <= 1.0)'), ('__gmpz_cmp_d', r'\(zsize-2\)-1', '(zsize-2)-2')]))
+
+# ------------------------------------------------------------------ mpz_cmpabs_d: sign of |z| - |d| (same structure, signs ignored; an infinity is larger than every |z|)
+_cd = UNITS[-1]
+_h = _cd['harness'].replace('h_mpz_cmp_d', 'h_mpz_cmpabs_d').replace('__gmpz_cmp_d (z, d)', '__gmpz_cmpabs_d (z, d)').replace('ret = sz > 0 ? 1 : -1;', 'ret = 1;')
+_h = _h.replace('''  if (d == 0)                         __CPROVER_assert (s == (sz > 0) - (sz < 0), "[C11] mpz_cmp_d: d == 0: sign of z");
+  else if (sz == 0)                   __CPROVER_assert (s == (d < 0 ? 1 : -1), "[C11] mpz_cmp_d: z == 0: opposite of the sign of d");
+  else if ((sz > 0) != (d > 0))       __CPROVER_assert (s == ret, "[C11] mpz_cmp_d: opposite signs");
+''', '''  if (d == 0)                         __CPROVER_assert (s == (sz != 0), "[C11] mpz_cmpabs_d: d == 0: |z| > 0 unless z == 0");
+  else if (sz == 0)                   __CPROVER_assert (s == -1, "[C11] mpz_cmpabs_d: z == 0 < |d|");
+''').replace('mpz_cmp_d:', 'mpz_cmpabs_d:')
+assert 'opposite signs' not in _h and '__gmpz_cmpabs_d' in _h
+UNITS.append(dict(_cd, name='mpz_cmpabs_d', source='mpz/cmpabs_d.c', contract_text=_cd['contract_text'].replace('__gmpz_cmp_d', '__gmpz_cmpabs_d'), enforce=['__gmpz_cmpabs_d'],
+                  functions={'__gmpz_cmpabs_d': dict(inserts=[(r'if \(\(zp\)\[__i\] != 0\) return 1;', r'{ if ((zp)[__i] != 0) g_hd = __i; \g<0> }')], loops=_cd['functions']['__gmpz_cmp_d']['loops'])},
+                  harness=_h, replay='mpz_cmpabs_d',
+                  selftest=[('__gmpz_cmpabs_d', r'return \(darray\[0\] != 0 \? -1 : 0\);', 'return 0;'), ('__gmpz_cmpabs_d', r'if \(d < 1\.0\)', 'if (d <= 1.0)')]))
